@@ -9,13 +9,14 @@ RULE = ("pairs of divergent suffixes (local, remote) over an 8-symbol event alph
         "least one of: unequal lengths, a timestamp tie, an identical event on both sides; distinct by (L,R)")
 TRUSTED_BASE = ["model/MergePatches.v transcribes auto_merge.rs::merge_patches (HashSet subset test, Vec::sort_by as a "
                 "stable sort); tied to the code by comparing the decision and the merged record order on every case"]
-ASSUMPTIONS = ["Rust's slice::sort_by is stable (documented)", "the end-to-end consequences (converged logs, decrypted "
-               "folders) are checked by C04/C02 on real accounts"]
+ASSUMPTIONS = ["Rust's slice::sort_by is stable (documented)", "the end-to-end consequence 'a secret created on one device "
+               "appears on all' is checked on a few real-account histories here (E2E); converged logs and decrypted folders in "
+               "general are C04's and C02's"]
 ALPHABET = [2, 4, 6, 8, 3, 5, 10, 12]
 
 
 def corpus():
-    return ["c05 k1 L=2@1,8@3 R=2@2",            # identical delete on both sides kept twice
+    return E2E + ["c05 k1 L=2@1,8@3 R=2@2",            # identical delete on both sides kept twice
             "c05 k2 L=2@5 R=2@1,4@3",            # subset -> rewind local
             "c05 k3 L=2@5,4@1 R=6@3,4@1",        # tie at t=1: local first
             "c05 k4 L= R=2@1", "c05 k5 L=2@1 R="]
@@ -34,6 +35,50 @@ def gen_cases(rng, tier):
             for j in range(n)]
 
 
+# ---- end to end: real accounts (the harness of C04); what the property promises in consequence:
+# a secret created on one device and never deleted is served by every device once everyone has synced
+E2E = [
+    "c05 e_plain cbe=fs sbe=fs devs=2 obs=end hist=s0|s1|t:50|c0:a|t:60|c1:b|t:70|u0:a|s0|s1|s0|s1|s1|s0",
+    "c05 e_plain_db cbe=db sbe=db devs=2 obs=end hist=s0|s1|t:50|c0:a|t:60|c1:b|t:55|c1:c|s0|s1|s0|s1|s1|s0",
+    "c05 e_newfolder_one cbe=fs sbe=fs devs=2 obs=end hist=s0|s1|t:50|f0:1|c0:a@1|t:60|c1:b|s0|s1|s0|s1|s1|s0",
+    "c05 e_newfolders_both cbe=fs sbe=fs devs=2 obs=end hist=s0|s1|t:50|f0:1|c0:a@1|t:60|f1:2|c1:b@2|s0|s1|s0|s1|s1|s0",
+    "c05 e_three cbe=fs sbe=fs devs=3 obs=end hist=s0|s1|s2|t:50|c0:a|t:60|c1:b|t:70|c2:c|s0|s1|s2|s2|s1|s0|s1|s0|s2",
+]
+
+
+def e2e_oracle(case, obs):
+    from vcheck import acct
+    hist, kv = acct.hist_of(case)
+    steps, _ = acct.parse(obs)
+    fails = []
+    if not steps:
+        return [{"oracle": "no_result", "detail": "no observation"}]
+    last = steps[max(steps)]
+    ress = [o.split(" res=")[1] for o in obs if " op=s" in " " + o and " res=" in o]
+    if any(r != "ok" for r in ress[-6:]):
+        return []          # syncs that fail are C04's subject
+    created, touched, new_folders = {}, set(), set()
+    for h in hist:
+        k = h[:1]
+        if k == "f": new_folders.add(h.split(":")[1])
+        if k == "c":
+            slot = h.split(":")[1].split("@")[0]
+            folder = h.split("@")[1] if "@" in h else "0"
+            created.setdefault(slot, folder)
+        if k in "xmaAkzhwiWZ":
+            touched.add(h.split(":")[1].split("@")[0] if ":" in h else "")
+    for slot, folder in sorted(created.items()):
+        if slot in touched or folder in touched: continue
+        label = "L%s=" % slot
+        for w, W in last["who"].items():
+            if not w.startswith("D"): continue
+            have = any(label in v.get("served", "") for v in W["folders"].values())
+            if not have:
+                fails.append({"oracle": "created_secret_lost", "in_folder_created_in_history": folder in new_folders,
+                              "detail": "secret L%s (created in folder %s, never deleted) is not served by %s after everyone synced" % (slot, folder, w)})
+    return fails
+
+
 def parse(case):
     d = dict(t.split("=", 1) for t in case.split()[2:] if "=" in t)
     f = lambda s: [(int(x.split("@")[0]), int(x.split("@")[1])) for x in s.split(",") if x]
@@ -41,6 +86,8 @@ def parse(case):
 
 
 def oracle(case, obs):
+    if " hist=" in case:
+        return e2e_oracle(case, obs)
     L, R = parse(case)
     fails = []
     if not obs:
@@ -76,6 +123,7 @@ def oracle(case, obs):
 
 
 def nontrivial(case, obs):
+    if " hist=" in case: return True
     L, R = parse(case)
     if not L or not R: return False
     ts = [t for _, t in L + R]
@@ -87,6 +135,7 @@ def distinct_key(case):
 
 
 def shrink(case):
+    if " hist=" in case: return []
     L, R = parse(case)
     f = lambda l: ",".join("%d@%d" % x for x in l)
     c = []
@@ -99,6 +148,7 @@ def distribution(cases, impl):
     d = {}
     for cid, obs in impl.items():
         k = obs[0].split()[0] if obs else "none"
+        if k not in ("rewind", "push", "err"): k = "end-to-end history"
         d[k] = d.get(k, 0) + 1
     return {"decisions": d}
 
